@@ -100,10 +100,10 @@ def mon_c02(h, sc, obs):
                 why = cause_of(h, e['seq'])
                 if e['via'] == 'load':
                     why = 'reload'
-                out.append(V('C02', 'terminal-rewritten', f"{e['kind']}:{old}->{new}:by-{why}", f"{e['kind']} {e['nid']} ({e['tid']}): {old} -> {new} caused by {why}", seq=e['seq']))
+                out.append(V('C02', 'terminal-rewritten', f"{e['kind']}:{old}->{new}:by-{why}:{h.race_tag(e['pid'])}", f"{e['kind']} {e['nid']} ({e['tid']}): {old} -> {new} caused by {why}", seq=e['seq']))
         elif rank(new) < rank(old):
             why = 'reload' if e['via'] == 'load' else cause_of(h, e['seq'])
-            out.append(V('C02', 'backwards', f"{e['kind']}:{old}->{new}:by-{why}", f"{e['kind']} {e['nid']} ({e['tid']}): {old} -> {new} caused by {why}", seq=e['seq']))
+            out.append(V('C02', 'backwards', f"{e['kind']}:{old}->{new}:by-{why}:{h.race_tag(e['pid'])}", f"{e['kind']} {e['nid']} ({e['tid']}): {old} -> {new} caused by {why}", seq=e['seq']))
         elif rank(new) == rank(old) == 1 and old != new and old != 'ready':
             out.append(V('C02', 'created-refine', f"{e['kind']}:{old}->{new}", f"{e['kind']} {e['nid']}: {old} -> {new}", seq=e['seq']))
         last[k] = new
@@ -171,7 +171,7 @@ def mon_c03(h, sc, obs):
                     if s_ not in TERM and d not in hook:
                         dn = h.create_by[d]
                         why = cause_of(h, e['seq'])
-                        disc = f"{e['kind']}-over-{dn['kind']}:{s_}:by-{why}"
+                        disc = f"{e['kind']}-over-{dn['kind']}:{s_}:by-{why}:{h.race_tag(e['pid'])}"
                         if dn['nid'] in facts['sub_nids']:
                             disc += ':' + facts['sub_nids'][dn['nid']] + '-substep'
                         out.append(V('C03', 'completed-with-open-descendant', disc,
@@ -206,7 +206,7 @@ def mon_c03(h, sc, obs):
         if ns != 1:
             out.append(V('C03', 'start-event-count', str(ns), f"pid {pid}: {ns} start events"))
         if len(term) > 1:
-            why = 'action-during-exec' if any(k[0] == pid for k in h.actions_during_exec()) else 'plain'
+            why = h.race_tag(pid)
             out.append(V('C03', 'terminal-event-count', f"{len(term)}:{why}", f"pid {pid}: terminal events {[(e['what'], e['state']) for e in term]}"))
         root = final.get((pid, '$'))
         if root and root['state'] in TERM and len(term) == 0 and not restarted:
@@ -226,7 +226,7 @@ def mon_c03(h, sc, obs):
             for k, t in final.items():
                 if k[0] == pid and t['state'] in OPEN and k not in hook:
                     why = classify_open(h, sc, facts, k, t, term[0]['state'], aborted)
-                    out.append(V('C03', 'open-after-end', f"{term[0]['state']}:{t['kind']}:{t['state']}:{why}",
+                    out.append(V('C03', 'open-after-end', f"{term[0]['state']}:{t['kind']}:{t['state']}:{why}:{h.race_tag(pid)}",
                                  f"pid {pid} ended {term[0]['state']} but {t['kind']} {t['nid']} ({k[1]}) is {t['state']} [{why}]"))
     return out
 
@@ -290,7 +290,7 @@ def mon_c08(h, sc, obs):
                 firsts.append(m)
         created = [m for m in firsts if m['state'] == 'created']
         term = [m for m in firsts if m['state'] in TERM]
-        race = 'action-during-exec' if k in ade else 'plain'
+        race = h.race_tag(k[0])
         revived = [s for s in reached.get(k, [])]
         was_revived = any(a[1] == 'error' and b[1] == 'running' for a, b in zip(revived, revived[1:]))
         if len(created) > 1:
@@ -349,7 +349,7 @@ def mon_c08(h, sc, obs):
         vis = kind in ('workflow', 'step') or (kind == 'act' and uses == IRQ)
         created = [m for m in ms if m['state'] == 'created']
         term = [m for m in ms if m['state'] in TERM]
-        race = 'action-during-exec' if k in ade else 'plain'
+        race = h.race_tag(k[0])
         obs['c08.tasks-checked'] += 1
         if vis:
             if any(s in ('running', 'interrupted') for s in sts) and len(created) == 0:
@@ -421,7 +421,7 @@ def mon_c01(h, sc, obs):
             opens = [t for t in p['tasks'] if t['state'] in OPEN and not (t.get('data') or {}).get('$is_event_processed')]
             # discriminators: which kind/state is stranded, and whether a client action overlapped a scheduler exec in this process
             kinds = sorted({f"{t['kind']}:{t['state']}" for t in opens})
-            race = 'action-during-exec' if any(k[0] == pid for k in ade) else 'plain'
+            race = h.race_tag(pid)
             strand = stranded_reason(h, pid, p, opens)
             out.append(V('C01', 'stuck', f"{strand}:{race}", f"pid {pid}: quiescent, unfinished, nothing answerable; open tasks {[(t['kind'], t['nid'], t['state']) for t in opens][:8]}", seq=e['seq']))
     return out
